@@ -19,7 +19,8 @@ All statements are about the functions the model driver executes (`Pun.Hier.eval
   the expression with every operand converted first.  The full statement is `C07RouteStatement`; what
   is proved is `route_agrees_partial` (missing: reflected product / quotient `Interval * P`,
   `Interval / P`, products / quotients with a number, dependency `i` in the reflected sums — those are
-  covered by the tie and the oracle only).
+  covered by `Pun.Props.C07Route`: `route_agrees` proves the agreement for EVERY cell, every operation and
+  dependency; `spec_total` / `route_partial` say when the converted-first expression answers).
 -/
 set_option linter.unusedSimpArgs false
 set_option linter.unusedVariables false
